@@ -598,6 +598,11 @@ func (ld *Layerdefs) mountOne(layer *Layerinfo) error {
 			if nil != err {
 				return err
 			}
+			// A recursive bind may have brought mounts onto later mountpoints
+			err = ld.refreshMountInfo()
+			if nil != err {
+				return err
+			}
 		}
 	}
 	err = ld.refreshMountInfo()
